@@ -106,16 +106,6 @@ Section Methods.
   | Ending (cur : list nat)         (* references resolved; cur = objects of the model ended last still to initialise *)
   | Processing.                     (* object processors *)
 
-  (* one complete (main) load *)
-  Record ctx := {
-    c_id : nat;
-    c_global : bool;                (* the metamodel keeps a global model repository *)
-    c_frames : list frame;          (* models under construction, repository order (main first) *)
-    c_phase : phase;
-    c_mids : list nat;              (* ghost: every model of this load *)
-    c_objs : list nat               (* ghost: every user object allocated by this load *)
-  }.
-
   Inductive ekind :=
   | KSyntax (c : nat)                          (* syntax error *)
   | KAlloc (c m o : nat) (parent : option nat) (* user_class.__new__ in process_node *)
@@ -126,6 +116,17 @@ Section Methods.
   | KFinish (c : nat).                         (* the load returned *)
   (* an event with the class state seen by the callback: _tx_instrumented and len(_tx_obj_attrs) *)
   Record event := { e_kind : ekind; e_count : nat; e_store : nat }.
+
+  (* one complete (main) load *)
+  Record ctx := {
+    c_id : nat;
+    c_global : bool;                (* the metamodel keeps a global model repository *)
+    c_frames : list frame;          (* models under construction, repository order (main first) *)
+    c_phase : phase;
+    c_mids : list nat;              (* ghost: every model of this load *)
+    c_objs : list nat;              (* ghost: every user object allocated by this load *)
+    c_trace : list ekind            (* ghost: the events of this load, newest first *)
+  }.
 
   Record state := {
     s_cls : cls;
@@ -196,7 +197,7 @@ Section Methods.
         let n := s_next s in
         (* the context the new parser belongs to *)
         let ctxs := if main then {| c_id := n; c_global := glob; c_frames := []; c_phase := Loading;
-                                    c_mids := []; c_objs := [] |} :: s_ctxs s
+                                    c_mids := []; c_objs := []; c_trace := [] |} :: s_ctxs s
                     else s_ctxs s in
         match ctxs with
         | [] => s
@@ -207,7 +208,7 @@ Section Methods.
                   let k := cls_replace (s_cls s) in
                   let c' := {| c_id := c_id c; c_global := c_global c;
                                c_frames := c_frames c ++ [new_frame (S n)];
-                               c_phase := Loading; c_mids := c_mids c ++ [S n]; c_objs := c_objs c |} in
+                               c_phase := Loading; c_mids := c_mids c ++ [S n]; c_objs := c_objs c; c_trace := c_trace c |} in
                   {| s_cls := k; s_ctxs := c' :: rest;
                      s_repo := if c_global c then s_repo s ++ [S n] else s_repo s;
                      s_next := S (S n); s_log := s_log s |}
@@ -226,7 +227,7 @@ Section Methods.
             | Loading, Some f =>
                 let x := s_next s in
                 let c' := {| c_id := c_id c; c_global := c_global c; c_frames := on_last (alloc_frame x) (c_frames c);
-                             c_phase := Loading; c_mids := c_mids c; c_objs := c_objs c ++ [x] |} in
+                             c_phase := Loading; c_mids := c_mids c; c_objs := c_objs c ++ [x]; c_trace := KAlloc (c_id c) (f_id f) x (hd_error (f_ostack f)) :: c_trace c |} in
                 {| s_cls := cls_alloc x (s_cls s); s_ctxs := c' :: rest; s_repo := s_repo s; s_next := S x;
                    s_log := ev (KAlloc (c_id c) (f_id f) x (hd_error (f_ostack f))) (s_cls s) :: s_log s |}
             | _, _ => s
@@ -239,7 +240,7 @@ Section Methods.
             match c_phase c with
             | Loading =>
                 let c' := {| c_id := c_id c; c_global := c_global c; c_frames := on_last complete_frame (c_frames c);
-                             c_phase := Loading; c_mids := c_mids c; c_objs := c_objs c |} in
+                             c_phase := Loading; c_mids := c_mids c; c_objs := c_objs c; c_trace := c_trace c |} in
                 set_ctxs s (c' :: rest)
             | _ => s
             end
@@ -251,7 +252,7 @@ Section Methods.
             match c_phase c with
             | Loading =>
                 let c' := {| c_id := c_id c; c_global := c_global c; c_frames := c_frames c;
-                             c_phase := Ending []; c_mids := c_mids c; c_objs := c_objs c |} in
+                             c_phase := Ending []; c_mids := c_mids c; c_objs := c_objs c; c_trace := KResolved (c_id c) :: c_trace c |} in
                 {| s_cls := s_cls s; s_ctxs := c' :: rest; s_repo := s_repo s; s_next := s_next s;
                    s_log := ev (KResolved (c_id c)) (s_cls s) :: s_log s |}
             | _ => s
@@ -267,7 +268,7 @@ Section Methods.
                 | [] =>
                     let k := if f_replaced f then cls_restore (s_cls s) else s_cls s in
                     let c' := {| c_id := c_id c; c_global := c_global c; c_frames := fs;
-                                 c_phase := Ending (f_inst f); c_mids := c_mids c; c_objs := c_objs c |} in
+                                 c_phase := Ending (f_inst f); c_mids := c_mids c; c_objs := c_objs c; c_trace := c_trace c |} in
                     {| s_cls := k; s_ctxs := c' :: rest; s_repo := s_repo s; s_next := s_next s; s_log := s_log s |}
                 | _ => s
                 end
@@ -282,7 +283,7 @@ Section Methods.
             | Ending (x :: cur) =>
                 let k := cls_pop x (s_cls s) in
                 let c' := {| c_id := c_id c; c_global := c_global c; c_frames := c_frames c;
-                             c_phase := Ending cur; c_mids := c_mids c; c_objs := c_objs c |} in
+                             c_phase := Ending cur; c_mids := c_mids c; c_objs := c_objs c; c_trace := KInit (c_id c) x :: c_trace c |} in
                 let s1 := {| s_cls := k; s_ctxs := c' :: rest; s_repo := s_repo s; s_next := s_next s;
                              s_log := ev (KInit (c_id c) x) k :: s_log s |} in
                 if ok then s1 else fail_ctx s1 c' rest
@@ -296,7 +297,7 @@ Section Methods.
             match c_phase c, c_frames c with
             | Ending [], [] | Processing, [] =>
                 let c' := {| c_id := c_id c; c_global := c_global c; c_frames := c_frames c;
-                             c_phase := Processing; c_mids := c_mids c; c_objs := c_objs c |} in
+                             c_phase := Processing; c_mids := c_mids c; c_objs := c_objs c; c_trace := KProc (c_id c) :: c_trace c |} in
                 let s1 := {| s_cls := s_cls s; s_ctxs := c' :: rest; s_repo := s_repo s; s_next := s_next s;
                              s_log := ev (KProc (c_id c)) (s_cls s) :: s_log s |} in
                 if ok then s1 else fail_ctx s1 c' rest
